@@ -1,6 +1,7 @@
 import SkfemVerif.Model.BC
 import SkfemVerif.Lemmas.Np
 import SkfemVerif.Lemmas.BC
+import SkfemVerif.Lemmas.Mpc
 import Mathlib.Algebra.BigOperators.Group.Finset.Basic
 import Mathlib.Algebra.BigOperators.Ring.Finset
 import Mathlib.Algebra.Field.Basic
@@ -121,6 +122,36 @@ theorem C05_penalize_rows (A : Nat → Nat → K) (b x : Nat → K) (D : List Na
     simp [penalizeMat, penalizeRhs, hi]
   · intro hi
     simp [penalizeMat, penalizeRhs, hi]
+
+/-- **multipoint constraints**: if `w` solves the reduced system `B w = y` built by `mpc`, the expanded
+    vector satisfies the constraint `z_S = T z_M + g` and the ORIGINAL equations on every row of
+    `U ∪ M`.  `U`, `M`, `S`: duplicate-free, pairwise disjoint, together all indices `< n`. -/
+theorem C05_mpc (n : Nat) (A : Nat → Nat → K) (b : Nat → K) (U M S : List Nat)
+    (T : Nat → Nat → K) (g : Nat → K) (w : Nat → K)
+    (hnd : (U ++ M ++ S).Nodup) (hcover : ∀ i, i < n ↔ i ∈ U ++ M ++ S)
+    (hsol : ∀ p < (U ++ M).length,
+      ((List.range (U ++ M).length).map (fun q => mpcMat A U M S T p q * w q)).sum = mpcRhs A b U M S g p) :
+    (∀ s (hs : s < S.length), mpcExpand U M S T g w (S[s])
+        = ((List.range M.length).map (fun j => T s j * mpcExpand U M S T g w (M.getD j 0))).sum + g s)
+    ∧ (∀ r ∈ U ++ M, matVec n A (mpcExpand U M S T g w) r = b r) := by
+  obtain ⟨hUM, hS, hd⟩ := List.nodup_append.1 hnd
+  have hdisj : ∀ i, i ∈ U ++ M → i ∉ S := fun i hi hiS => hd i hi i hiS rfl
+  have hcover' : ∀ i, i < n ↔ (i ∈ U ++ M ∨ i ∈ S) := by
+    intro i
+    rw [hcover i, List.mem_append]
+  constructor
+  · intro s hs
+    rw [mpcExpand_S U M S T g w hS hdisj s hs]
+    congr 2
+    apply List.map_congr_left
+    intro j hj
+    have hj' : j < M.length := List.mem_range.1 hj
+    rw [getD_M_eq U M j hj',
+      mpcExpand_UM U M S T g w hUM (U.length + j) (by rw [List.length_append]; omega)]
+  · intro r hr
+    obtain ⟨p, hp, rfl⟩ := List.getElem_of_mem hr
+    rw [← getD_eq_getElem_of_lt (U ++ M) p hp]
+    exact mpc_row n A b U M S T g w hUM hS hdisj hcover' p (hsol p hp)
 
 end Ring
 
